@@ -706,6 +706,20 @@ fn run_program_inner(c: &Case, sx: &mut Sx, dump: &mut Vec<Option<(usize, usize,
                 let mut rnx = CKKSPlaintextVecRnx::<f64>::alloc(n).unwrap();
                 cx.encoder.encode_reim(&mut rnx, &pre, &pim).unwrap();
                 let cst = CKKSPlaintextCstRnx::<f64>::new(cre_o, cim);
+                // constant forms: half of the cases hand the library a caller-built ZNX constant (a constant without any part
+                // stays with the RNX form, which has its own documented meaning for it)
+                let cznx: Option<poulpy_ckks::layouts::plaintext::CKKSPlaintextCstZnx> = if k5 >= 3 && (seed >> 7) & 1 == 1 && (cre_o.is_some() || cim.is_some()) {
+                    use poulpy_ckks::layouts::plaintext::CKKSConstPlaintextConversion;
+                    if k5 == 4 {
+                        cst.to_znx((b as u32).into(), prec).ok()
+                    } else {
+                        // k = dst.log_budget() + log_delta, dst after the alignment shift into its buffer
+                        let off = if assign { 0 } else { ra.ct.effective_k().saturating_sub(cap) };
+                        ra.ct.log_budget().checked_sub(off).and_then(|lb| cst.to_znx_at_k((b as u32).into(), lb + prec.log_delta, prec.log_delta).ok())
+                    }
+                } else {
+                    None
+                };
                 // vector forms: also through a caller-built ZNX plaintext, whose buffer may hold more limbs than its
                 // metadata needs (alloc with a larger budget + set_meta_checked, as documented for manual buffers)
                 let znx_form: Option<poulpy_ckks::layouts::plaintext::CKKSPlaintextVecZnx<Vec<u8>>> = if znx_sel {
@@ -764,6 +778,61 @@ fn run_program_inner(c: &Case, sx: &mut Sx, dump: &mut Vec<Option<(usize, usize,
                             0 => md.ckks_add_pt_vec_znx_into(&mut ct, &ra.ct, z, sc),
                             1 => md.ckks_sub_pt_vec_znx_into(&mut ct, &ra.ct, z, sc),
                             _ => md.ckks_mul_pt_vec_znx_into(&mut ct, &ra.ct, z, sc),
+                        };
+                        if r.is_ok() {
+                            if let Some(sh) = res_sh {
+                                new_reg = Some((dsti, Reg { ct, sh }));
+                            }
+                        }
+                        got = Some(r);
+                    }
+                } else if let Some(cz) = cznx {
+                    // constant forms through a caller-built ZNX constant, quantised as documented: aligned to the
+                    // destination's remaining capacity for add / sub (to_znx_at_k), natural precision for the product (to_znx)
+                    classes.push("znx_constant");
+                    LAST_OP.with(|l| {
+                        l.set(match (k5, assign) {
+                            (3, false) => "ckks_add_pt_const_znx_into",
+                            (3, true) => "ckks_add_pt_const_znx_assign",
+                            (5, false) => "ckks_sub_pt_const_znx_into",
+                            (5, true) => "ckks_sub_pt_const_znx_assign",
+                            (_, false) => "ckks_mul_pt_const_znx_into",
+                            (_, true) => "ckks_mul_pt_const_znx_assign",
+                        })
+                    });
+                    if assign {
+                        let me = regs[a as usize % 4].as_mut().unwrap();
+                        let before = me.ct.meta();
+                        let sc = sx.get(|| match k5 {
+                            3 => md.ckks_add_pt_const_tmp_bytes(),
+                            5 => md.ckks_sub_pt_const_tmp_bytes(),
+                            _ => md.ckks_mul_pt_const_tmp_bytes(&me.ct, &me.ct, &prec),
+                        });
+                        let r = match k5 {
+                            3 => md.ckks_add_pt_const_znx_assign(&mut me.ct, &cz, sc),
+                            5 => md.ckks_sub_pt_const_znx_assign(&mut me.ct, &cz, sc),
+                            _ => md.ckks_mul_pt_const_znx_assign(&mut me.ct, &cz, sc),
+                        };
+                        if r.is_err() && me.ct.meta() != before {
+                            return fail(step, op, "metadata-changed-on-error", format!("in-place operation (ZNX constant) failed but the metadata went from {before:?} to {:?}", me.ct.meta()));
+                        }
+                        if r.is_ok() {
+                            if let Some(sh) = res_sh {
+                                me.sh = sh;
+                            }
+                        }
+                        got = Some(r);
+                    } else {
+                        let mut ct = alloc((cap / b) as u8);
+                        let sc = sx.get(|| match k5 {
+                            3 => md.ckks_add_pt_const_tmp_bytes(),
+                            5 => md.ckks_sub_pt_const_tmp_bytes(),
+                            _ => md.ckks_mul_pt_const_tmp_bytes(&ct, &ra.ct, &prec),
+                        });
+                        let r = match k5 {
+                            3 => md.ckks_add_pt_const_znx_into(&mut ct, &ra.ct, &cz, sc),
+                            5 => md.ckks_sub_pt_const_znx_into(&mut ct, &ra.ct, &cz, sc),
+                            _ => md.ckks_mul_pt_const_znx_into(&mut ct, &ra.ct, &cz, sc),
                         };
                         if r.is_ok() {
                             if let Some(sh) = res_sh {
@@ -1155,6 +1224,7 @@ pub fn run_composite(c: &CompCase) -> Verdict {
 /// chains through the primitives always run on roomy scratch.
 pub fn run_composite_sx(c: &CompCase, sx: &mut Sx) -> Verdict {
     use poulpy_ckks::leveled::{CKKSAddManyOps, CKKSDotProductOps, CKKSMulAddOps, CKKSMulManyOps, CKKSMulSubOps};
+    use poulpy_ckks::layouts::plaintext::CKKSConstPlaintextConversion;
     let cx = ctx(c.pset as usize % 2);
     let p = cx.p;
     let (n, b) = (p.n, p.base2k);
@@ -1230,6 +1300,20 @@ pub fn run_composite_sx(c: &CompCase, sx: &mut Sx) -> Verdict {
                 3 if znx_sel => (md.ckks_mul_sub_pt_vec_znx_into(&mut dst1, &a.ct, &znx, sx.op("ckks_mul_sub_pt_vec_znx_into", || md.ckks_mul_sub_pt_vec_znx_tmp_bytes(&wl, &wl, &prec))), md.ckks_mul_pt_vec_znx_into(&mut tmp, &a.ct, &znx, sx.roomy()).and_then(|_| md.ckks_sub_assign(&mut dst2, &tmp, sx.roomy()))),
                 2 => (md.ckks_mul_add_pt_vec_rnx_into(&mut dst1, &a.ct, &rnx, prec, sx.op("ckks_mul_add_pt_vec_rnx_into", || md.ckks_mul_add_pt_vec_rnx_tmp_bytes(&wl, &wl, &prec))), md.ckks_mul_pt_vec_rnx_into(&mut tmp, &a.ct, &rnx, prec, sx.roomy()).and_then(|_| md.ckks_add_assign(&mut dst2, &tmp, sx.roomy()))),
                 3 => (md.ckks_mul_sub_pt_vec_rnx_into(&mut dst1, &a.ct, &rnx, prec, sx.op("ckks_mul_sub_pt_vec_rnx_into", || md.ckks_mul_sub_pt_vec_rnx_tmp_bytes(&wl, &wl, &prec))), md.ckks_mul_pt_vec_rnx_into(&mut tmp, &a.ct, &rnx, prec, sx.roomy()).and_then(|_| md.ckks_sub_assign(&mut dst2, &tmp, sx.roomy()))),
+                4 if znx_sel && !none_const && cst.to_znx((b as u32).into(), prec).is_ok() => {
+                    let cz = cst.to_znx((b as u32).into(), prec).unwrap();
+                    (
+                        md.ckks_mul_add_pt_const_znx_into(&mut dst1, &a.ct, &cz, sx.op("ckks_mul_add_pt_const_znx_into", || md.ckks_mul_add_pt_const_tmp_bytes(&wl, &wl, &prec))),
+                        md.ckks_mul_pt_const_rnx_into(&mut tmp, &a.ct, &cst, prec, sx.roomy()).and_then(|_| md.ckks_add_assign(&mut dst2, &tmp, sx.roomy())),
+                    )
+                }
+                5 if znx_sel && !none_const && cst.to_znx((b as u32).into(), prec).is_ok() => {
+                    let cz = cst.to_znx((b as u32).into(), prec).unwrap();
+                    (
+                        md.ckks_mul_sub_pt_const_znx_into(&mut dst1, &a.ct, &cz, sx.op("ckks_mul_sub_pt_const_znx_into", || md.ckks_mul_sub_pt_const_tmp_bytes(&wl, &wl, &prec))),
+                        md.ckks_mul_pt_const_rnx_into(&mut tmp, &a.ct, &cst, prec, sx.roomy()).and_then(|_| md.ckks_sub_assign(&mut dst2, &tmp, sx.roomy())),
+                    )
+                }
                 4 => (
                     md.ckks_mul_add_pt_const_rnx_into(&mut dst1, &a.ct, &cst, prec, sx.op("ckks_mul_add_pt_const_rnx_into", || md.ckks_mul_add_pt_const_tmp_bytes(&wl, &wl, &prec))),
                     if none_const { Ok(()) } else { md.ckks_mul_pt_const_rnx_into(&mut tmp, &a.ct, &cst, prec, sx.roomy()).and_then(|_| md.ckks_add_assign(&mut dst2, &tmp, sx.roomy())) },
@@ -1395,6 +1479,10 @@ pub fn run_composite_sx(c: &CompCase, sx: &mut Sx) -> Verdict {
             let r1: anyhow::Result<()> = match kind {
                 9 if znx_sel => md.ckks_dot_product_pt_vec_znx(&mut dst1, &ains, &znxs.iter().collect::<Vec<_>>(), sx.op("ckks_dot_product_pt_vec_znx", || md.ckks_dot_product_pt_vec_znx_tmp_bytes(&wl, &wl, &prec))),
                 9 => md.ckks_dot_product_pt_vec_rnx(&mut dst1, &ains, &rnxs.iter().collect::<Vec<_>>(), prec, sx.op("ckks_dot_product_pt_vec_rnx", || md.ckks_dot_product_pt_vec_rnx_tmp_bytes(&wl, &wl, &prec))),
+                10 if znx_sel && csts.iter().all(|c| c.to_znx((b as u32).into(), prec).is_ok()) => {
+                    let czs: Vec<poulpy_ckks::layouts::plaintext::CKKSPlaintextCstZnx> = csts.iter().map(|c| c.to_znx((b as u32).into(), prec).unwrap()).collect();
+                    md.ckks_dot_product_pt_const_znx(&mut dst1, &ains, &czs.iter().collect::<Vec<_>>(), sx.op("ckks_dot_product_pt_const_znx", || md.ckks_dot_product_pt_const_tmp_bytes(&wl, &wl, &prec)))
+                }
                 10 => md.ckks_dot_product_pt_const_rnx(&mut dst1, &ains, &csts.iter().collect::<Vec<_>>(), prec, sx.op("ckks_dot_product_pt_const_rnx", || md.ckks_dot_product_pt_const_tmp_bytes(&wl, &wl, &prec))),
                 _ => md.ckks_dot_product_ct(&mut dst1, &ains, &bins, &cx.tsk, sx.op("ckks_dot_product_ct", || md.ckks_dot_product_ct_tmp_bytes(nterms, &wl, &cx.tsk))),
             };
